@@ -251,6 +251,14 @@ def emitted_modules():
             out.append(ge)
         else:
             out.append((f'{label}:grandchild', ge))
+    # the checked-in generated parser of the metagrammar is an emitted module like any other
+    # (plain convention); the module-level rules apply to it as it stands in the tree
+    try:
+        sp = modroute.Emitted('shipped-parser[ctx=0]', load.read("sourcer/parser.py"), False, False, None)
+        sp.body, sp.route = None, 'shipped-parser'
+        out.append(sp)
+    except FileNotFoundError:
+        raise AnalysisError('anchor sourcer/parser.py vanished')
     _cache['mods'] = (R, out)
     return _cache['mods']
 
